@@ -307,6 +307,25 @@ func (ex *Exec) rwSlice(s *SliceVal) *SliceVal {
 	return &n
 }
 
+func (ex *Exec) mapOf(v Value) *MapVal {
+	m, ok := v.(*MapVal)
+	if !ok {
+		ex.unsupported("map operation on %s", describe(v))
+	}
+	return m
+}
+
+// mapFind returns the index of the entry whose key equals k (deciding each
+// comparison like a branch), or -1.
+func (ex *Exec) mapFind(m *MapObj, k Value) int {
+	for j, kk := range m.Keys {
+		if ex.branch(ex.valueEq(kk, k)) {
+			return j
+		}
+	}
+	return -1
+}
+
 func (ex *Exec) rwValue(v Value) Value {
 	switch x := v.(type) {
 	case *Term:
@@ -1338,7 +1357,77 @@ func (ex *Exec) step(fr *frame, in ssa.Instruction) {
 	case *ssa.TypeAssert:
 		fr.env[i] = ex.typeAssert(fr, i)
 	case *ssa.MakeMap:
-		ex.unsupported("maps are not modelled")
+		fr.env[i] = &MapVal{M: &MapObj{}}
+	case *ssa.MapUpdate:
+		m := ex.mapOf(ex.get(fr, i.Map))
+		if m.M == nil {
+			ex.check(ex.tt.False, "assignment to entry in nil map")
+		}
+		k, v := ex.get(fr, i.Key), ex.get(fr, i.Value)
+		if at := ex.mapFind(m.M, k); at >= 0 {
+			m.M.Vals[at] = v
+		} else {
+			m.M.Keys, m.M.Vals = append(m.M.Keys, k), append(m.M.Vals, v)
+		}
+	case *ssa.Lookup:
+		if _, isMap := under(i.X.Type()).(*types.Map); !isMap {
+			ex.unsupported("SSA instruction %T (%s)", in, in.String())
+		}
+		m := ex.mapOf(ex.get(fr, i.X))
+		vt := under(i.X.Type()).(*types.Map).Elem()
+		at := -1
+		if m.M != nil {
+			at = ex.mapFind(m.M, ex.get(fr, i.Index))
+		}
+		var v Value
+		if at >= 0 {
+			v = m.M.Vals[at]
+		} else {
+			v = ex.zero(vt)
+		}
+		if i.CommaOk {
+			fr.env[i] = TupleVal{v, ex.tt.Bool(at >= 0)}
+		} else {
+			fr.env[i] = v
+		}
+	case *ssa.Range:
+		m, ok := ex.get(fr, i.X).(*MapVal)
+		if !ok {
+			ex.unsupported("range over %s", describe(ex.get(fr, i.X)))
+		}
+		it := &mapIter{}
+		if m.M != nil {
+			it.m = m.M
+			it.keys = append([]Value(nil), m.M.Keys...)
+		}
+		fr.env[i] = &OpaqueVal{What: "map iterator", Data: it}
+	case *ssa.Next:
+		ov, _ := ex.get(fr, i.Iter).(*OpaqueVal)
+		var it *mapIter
+		if ov != nil {
+			it, _ = ov.Data.(*mapIter)
+		}
+		if it == nil {
+			ex.unsupported("SSA instruction %T (%s)", in, in.String())
+		}
+		mt := under(i.Iter.(*ssa.Range).X.Type()).(*types.Map)
+		res := TupleVal{ex.tt.False, ex.zero(mt.Key()), ex.zero(mt.Elem())}
+		for it.pos < len(it.keys) {
+			k := it.keys[it.pos]
+			it.pos++
+			// entries deleted during the iteration are not produced
+			at := -1
+			for j, kk := range it.m.Keys {
+				if kk == k {
+					at = j
+				}
+			}
+			if at >= 0 {
+				res = TupleVal{ex.tt.True, k, it.m.Vals[at]}
+				break
+			}
+		}
+		fr.env[i] = res
 	default:
 		ex.unsupported("SSA instruction %T (%s)", in, in.String())
 	}
@@ -1640,6 +1729,12 @@ func (ex *Exec) valueEq(a, b Value) *Term {
 		return ex.valueEq(x.Val, y.Val)
 	case *OpaqueVal:
 		return ex.tt.Bool(a == b)
+	case *MapVal:
+		y, ok := b.(*MapVal)
+		if !ok || (x.M != nil && y.M != nil) {
+			ex.unsupported("map comparison with non-nil")
+		}
+		return ex.tt.Bool(x.M == nil && y.M == nil)
 	case *StructVal:
 		y, ok := b.(*StructVal)
 		if !ok || len(x.Leaves) != len(y.Leaves) {
@@ -1812,7 +1907,21 @@ func (ex *Exec) builtin(fr *frame, b *ssa.Builtin, c *ssa.CallCommon, args []Val
 			return ex.c64(uint64(len(x.S)))
 		case *StructVal:
 			return ex.c64(uint64(under(c.Args[0].Type()).(*types.Array).Len()))
+		case *MapVal:
+			if x.M == nil {
+				return ex.c64(0)
+			}
+			return ex.c64(uint64(len(x.M.Keys)))
 		}
+	case "delete":
+		m := ex.mapOf(args[0])
+		if m.M != nil {
+			if at := ex.mapFind(m.M, args[1]); at >= 0 {
+				m.M.Keys = append(m.M.Keys[:at:at], m.M.Keys[at+1:]...)
+				m.M.Vals = append(m.M.Vals[:at:at], m.M.Vals[at+1:]...)
+			}
+		}
+		return nil
 	case "cap":
 		if x, ok := args[0].(*SliceVal); ok {
 			return x.Cap
